@@ -99,6 +99,9 @@ def run(ctx):
     rep.rule("C06.R8", "relative polarity of the two spheres' terms in the normal-gap chain and in the slip chain (K9)", 14)
     rep.rule("C06.R9", "all point-protocol calls of a contact on one body name the same material point (xi, B_r_CP)", 6)
     protocol.point_argument_agreement(ctx, "C06.R9", [(ci.qual, ci.rel, ci.node) for ci in contact_classes(ctx)])
+    rep.rule("C06.R13", "contact routines do not modify in place what the memoised contact kinematics (n, n_q1_q2, t1t2, t1t2_q1_q2) or the bodies' memoised kinematics hand out (K18): a derivative evaluated after another one at the same state stays exact", 5)
+    from .. import cachepurity as _cp
+    _cp.report(ctx, "C06.R13", ("cardillo/contacts/",), floor_note=False)
     rep.rule("C06.R11", "memoised contact kinematics (n, t1t2 and their derivatives) are keyed by every argument the result depends on, including time", 8)
     from . import c26
     c26.r1_keys(ctx, c26.find_sites(ctx), rule="C06.R11", want_cls=lambda ci: ci.rel.startswith("cardillo/contacts/"))
@@ -289,4 +292,9 @@ MUTANTS += [
 ]
 NEUTRAL += [
     dict(id="c06-n-r8", canary=True, what="Sphere2Sphere.g_N_dot_q implemented correctly", file=S2S, old='    def g_N_dot_q(self, t, q, u):\n        raise NotImplementedError\n', new='    def g_N_dot_q(self, t, q, u):\n        n = self.n(t, q)\n        n_q1, n_q2 = self.n_q1_q2(t, q)\n        v_C1C2 = self.v_C2(t, q, u) - self.v_C1(t, q, u)\n        g_N_dot_q = np.concatenate(\n            (\n                v_C1C2 @ n_q1 - n @ self.v_C1_q1(t, q, u),\n                v_C1C2 @ n_q2 + n @ self.v_C2_q2(t, q, u),\n            )\n        ).reshape((self.nla_N, self._nq))\n        return g_N_dot_q\n'),
+]
+
+MUTANTS += [
+    dict(id="c06-r13-seed", canary=True, what="[seeded by sub-agent] Sphere2Sphere.Wla_N_q hoists the factor la_N into the arrays returned by the memoised n_q1_q2 (nq1 *= la_N)", file=S2S,
+         old="        nq1, nq2 = self.n_q1_q2(t, q)\n", new="        nq1, nq2 = self.n_q1_q2(t, q)\n        nq1 *= la_N\n", expect="C06.R13"),
 ]
